@@ -20,6 +20,7 @@ def mentions(e, macro):
 def check(run, prog, tier):
     run.rule("C12-a", "backend(): grant loop `for (i = 0; i < max_users; i++) if (all_users[i]) iflags |= HAS_CMD_TURN` dominates the command loop inside the main loop", 2)
     run.rule("C12-b", "get_user_command(): consume + select are guarded by (complete command) and (turn held); the no-turn branch neither consumes input nor the turn; the scan is bounded by max_users", 3)
+    run.rule("C12-d", "process_user_command returns 0 only when get_user_command found nothing: every return reachable after a command was taken is non-zero", 1)
     run.rule("C12-c", "HAS_CMD_TURN is set only by the grant loop and cleared only by get_user_command; only get_user_command reads it", 2)
 
     be = run.need(prog.func("backend"), "backend")
@@ -102,6 +103,41 @@ def check(run, prog, tier):
     bounded = any(op == "<" and strip(r).get("n") == "max_users" for op, l, r in lg)
     run.ob("C12-b", "scan-bound", bounded, "the scan loop is bounded by max_users" if bounded else "scan loop not bounded by max_users", guc.file, guc.line, "get_user_command",
            what="get_user_command does not visit every connection slot once")
+
+    # ---- C12-d: process_user_command's result drives the backend's command loop
+    puc = run.need(prog.unit("src/comm.c").funcs.get("process_user_command"), "process_user_command")
+    run.saw(puc)
+    gtest = [bid for bid in puc.reachable() if puc.branch_cond(bid) is not None and any(x.get("k") == "Call" and x.get("fn") == "get_user_command" for x in walk(puc.branch_cond(bid)))]
+    run.need(gtest, "get_user_command test in process_user_command")
+    G = gtest[0]
+    e0, t0 = normalize_cond(puc.branch_cond(G), True)
+    taken = puc.blocks[G].succ[0] if t0 else puc.blocks[G].succ[1]   # edge on which a command was obtained
+    region = cfgq.reach_set(puc, [taken])
+    bad = []
+    nret = 0
+    for b, i, e in puc.elements():
+        if e.get("k") != "Return" or "e" not in e or b.id not in region:
+            continue
+        # is this return reachable from the 'command taken' edge?
+        nret += 1
+        v = strip(e["e"])
+        cv = const_val(v)
+        if cv is not None:
+            if cv == 0:
+                # reachable with a command taken?  (the shared 'no command' exit is also in the region if code falls through)
+                p = puc.reach_avoiding([taken], lambda blk, bb=b.id: blk.id == bb)
+                if p is not None:
+                    bad.append("line %s returns 0 after a command was taken (path %s)" % (e.get("l"), p[:8]))
+        elif v.get("k") == "Ref" and v.get("d") in ("local", "slocal"):
+            nz = [b2.id for b2, i2, n2 in puc.nodes() if n2.get("k") == "Asg" and strip(n2["L"]).get("id") == v.get("id") and const_val(n2["R"]) not in (None, 0)]
+            p = puc.reach_avoiding([taken], lambda blk, bb=b.id: blk.id == bb, avoid_blocks=nz)
+            if p is not None:
+                bad.append("line %s returns %s, still 0 on path %s after a command was taken" % (e.get("l"), v.get("n"), p[:8]))
+        else:
+            bad.append("line %s returns a non-constant %s" % (e.get("l"), show(v)))
+    run.ob("C12-d", "served-means-nonzero", not bad, "all %d returns reachable after a command was taken yield non-zero (the backend loop continues with the next user)" % nret if not bad else "; ".join(bad[:3]),
+           puc.file, puc.line, "process_user_command",
+           what="process_user_command reports 'no more commands' although it took one (e.g. when the user quit): the backend stops serving the remaining users in that cycle")
 
     # ---- C12-c
     setters, clearers, readers = set(), set(), set()
